@@ -341,6 +341,8 @@ type transport struct {
 	// oldSrv keeps answering the requests that were in flight when the service
 	// was redeployed (fedRequest.drain: the old version is drained, not killed)
 	oldSrv *federation.Server
+	// introspected: schema fetches the current version has answered
+	introspected int
 	srv        *federation.Server
 	requests   int
 	faulty     bool
@@ -401,6 +403,9 @@ func (t *transport) Execute(ctx context.Context, req *federation.QueryRequest) (
 		srv = t.oldSrv
 	}
 	resp, err := srv.Execute(ctx, &thunderpb.ExecuteRequest{Query: marshaled})
+	if err == nil && isIntrospection && srv == t.srv {
+		t.introspected++
+	}
 	if err != nil {
 		if !isIntrospection && !(r != nil && r.wild) {
 			t.fw.requestErrors = append(t.fw.requestErrors, fmt.Sprintf("%s: %v", t.name, err))
@@ -671,10 +676,9 @@ func fedBody(c *runner.Ctx) {
 				if keyShrink {
 					c.Fault("service-redeploy-with-other-key-set")
 					rollout = simrt.Now()
-					settled = rollout + 4*time.Second
-					if fw.refreshOutageUntil > rollout {
-						settled = fw.refreshOutageUntil + 4*time.Second
-					}
+					// open until the gateway has really picked the new version up
+					// (set below, after three answered schema fetches)
+					settled = 1 << 62
 					last.oldSrv = last.srv
 					// Requests in flight keep talking to the old version. What they
 					// must return is only certain if they were planned before this
@@ -693,10 +697,20 @@ func fedBody(c *runner.Ctx) {
 					}
 				}
 				last.srv = srv
+				last.introspected = 0
 				if d := fw.refreshOutageUntil - simrt.Now(); d > 0 {
 					simrt.Sleep(d)
 				}
-				simrt.Sleep(3500 * time.Millisecond) // more than three refresh intervals
+				// until the new version has answered three of the gateway's schema
+				// fetches (a refresh can take long when its task is slow), and the
+				// last of them has had time to be installed
+				for i := 0; i < 600 && last.introspected < 3; i++ {
+					simrt.Sleep(500 * time.Millisecond)
+				}
+				simrt.Sleep(3500 * time.Millisecond)
+				if keyShrink {
+					settled = simrt.Now()
+				}
 				for _, sp := range []struct{ kind, text string }{
 					{"data-extra", "{ a_0: a(i: 0) { id extra } }"},
 					{"introspect-extra", `{ __type(name: "A") { fields { name } } }`},
@@ -759,10 +773,10 @@ func fedBody(c *runner.Ctx) {
 		// promptness: once a sub-query failed or the request was cancelled, the
 		// remaining sub-queries are cancelled and Execute returns (the stub
 		// transports honour cancellation at once; resolvers take milliseconds)
-		if r.err != nil && r.firstErrorAt > 0 && r.doneAt-r.firstErrorAt > 2*time.Second {
+		if r.err != nil && r.firstErrorAt > 0 && r.doneAt-r.firstErrorAt > 10*time.Second {
 			c.ViolateFor("C15", "gateway-waited-for-sibling-after-failure", "a sub-query of request %d failed at t=%v but Execute only returned at t=%v: the sibling sub-queries were not cancelled", r.idx, r.firstErrorAt, r.doneAt)
 		}
-		if r.cancelledAt > 0 && r.doneAt > r.cancelledAt && r.doneAt-r.cancelledAt > 2*time.Second {
+		if r.cancelledAt > 0 && r.doneAt > r.cancelledAt && r.doneAt-r.cancelledAt > 10*time.Second {
 			c.ViolateFor("C15", "gateway-slow-to-return-after-cancellation", "request %d was cancelled at t=%v but Execute only returned at t=%v", r.idx, r.cancelledAt, r.doneAt)
 		}
 		if r.err != nil && r.lenient {
